@@ -724,9 +724,11 @@ class GAM(Core, MetaTermMixin):
 
         y_ = self.link.link(y, self.distribution)
         y_ = make_2d(y_, verbose=False)
-        assert np.isfinite(
-            y_
-        ).all(), "transformed response values should be well-behaved."
+        if not np.isfinite(y_).all():
+            raise OptimizationError(
+                'link function of the response values is not finite. '
+                'Rescale the targets or choose another link.'
+            )
 
         # solve the linear problem
         return np.linalg.solve(
@@ -765,9 +767,11 @@ class GAM(Core, MetaTermMixin):
             # initialize the model
             self.coef_ = self._initial_estimate(Y, modelmat)
 
-        assert np.isfinite(
-            self.coef_
-        ).all(), "coefficients should be well-behaved, but found: {}".format(self.coef_)
+        if not np.isfinite(self.coef_).all():
+            raise OptimizationError(
+                'initial coefficients are not finite: {}. '
+                'Check the scale of the data.'.format(self.coef_)
+            )
 
         P = self._P()
         S = sp.sparse.diags(np.ones(m) * np.sqrt(EPS))  # improve condition
